@@ -264,8 +264,14 @@ def gen_shipped(rnd, classes=None, dyn=None, oracles=('clock', 'member', 'loci')
     cls = rnd.choice(classes or SHIPPED)
     nodes, edges = net or rand_net(rnd)
     params = shipped_params(cls, rnd, extreme)
+    dyn = dyn or rnd.choice(['sto', 'syn'])
+    if dyn == 'sto' and rnd.random() < 0.15:
+        # rates above 1 (transmission three or four times as fast as recovery, written as such)
+        ks = [k for k in params if k.split('.')[-1] in ('pInfect', 'pRemove', 'pRecover', 'pAffect', 'pStifle', 'pInfectSymptomatic', 'pSymptoms')]
+        if ks:
+            k = rnd.choice(ks); params[k] = params[k] * rnd.choice([4.0, 8.0])
     ps = sorted({v for k, v in params.items() if isinstance(v, float) and 0 < v < 1})
-    return dict(procs=[dict(cls=cls, name=None, params=params)], seq='bare', dyn=dyn or rnd.choice(['sto', 'syn']), nodes=nodes,
+    return dict(procs=[dict(cls=cls, name=None, params=params)], seq='bare', dyn=dyn, nodes=nodes,
                 edges=edges, maxT=maxT or rnd.choice([3.0, 6.0, 12.0]), seed=rnd.random(), specials=ps, pspecial=0.15,
                 oracles=list(oracles), preattr=(rnd.randrange(1 << 30) if rnd.random() < 0.25 else None), strlabels=rnd.choice([False, False, False, False, False, False, False, True, True, 'big']),
                 ptypes=rnd.choice([None, None, None, 'int', 'np']))
@@ -726,13 +732,15 @@ def gen_rates(rnd, dyn='sto'):
     if rnd.random() < 0.4:
         handlers[rnd.randrange(3)] = ['N', [['CLOCK']]]        # an event that leaves its element where it is
     P = [0.0, 0.0009765625, 0.125, 0.25, 0.5, 1.0]
+    if dyn == 'sto': P = P + [2.0, 3.0, 1000.0]          # under Gillespie dynamics the numbers are rates, not bounded by 1
     nodeloci = [0, 1, 2]
     perel = []
     for l in rnd.sample(range(3), rnd.randint(1, 3)):
         perel.append([l, rnd.choice(P), (l + rnd.choice([1, 2])) % 3])
     if rnd.random() < 0.4 and perel:
         perel.append([perel[0][0], perel[0][1], perel[0][2]])           # two events with the same rate on the same locus
-    fixed = [[rnd.randrange(3), rnd.choice(P), rnd.randrange(3)] for _ in range(rnd.choice([0, 1, 2]))]
+    # (a fixed-rate event keeps its rate while its locus is empty: thousands of idle iterations at rate 1000, more than the model driver's fuel)
+    fixed = [[rnd.randrange(3), rnd.choice([p for p in P if p <= 3.0]), rnd.randrange(3)] for _ in range(rnd.choice([0, 1, 2]))]
     comps = rnd.choice([[0.5, 0.5, 0.0], [0.5, 0.25, 0.25], [1.0, 0.0, 0.0]])
     sp = dict(comps=comps, nodeloci=nodeloci, edgeloci=[], multiloci=[], perel=perel, fixed=fixed, handlers=handlers, posts=[])
     ps = sorted({p for (_, p, _) in perel + fixed if 0 < p < 1})
